@@ -64,8 +64,8 @@ def gen_presence(env, cat, shape, pfx="", depth=0):
             if st == 0 or depth >= 1:
                 continue
             sub = gen_presence(env, cat, f.msg, name + ".", depth + 1) if st == 2 else {}
-            if st == 1:
-                sub["__received__"] = True  # empty but present
+            if st == 1 or not cat.shapes[f.msg].fields:
+                sub["__received__"] = True  # empty but present (a value of a type without fields is present as soon as it is assigned)
             val[f.name] = sub
         else:
             v = leaf(f, name, f.wraps or f.kind)
@@ -213,7 +213,7 @@ def units(tier):
                 continue
             cats.append(("s1 %s %s" % (kind, label), ["s1", kind, label]))
     cats += [("map %s->%s" % (k, v), ["s1map", k, v]) for k, v in (("int32", "int32"), ("string", "message"), ("bool", "bytes"))]
-    cats += [("s2 " + n, ["s2", n]) for n in ("oneofs", "nested", "optionals", "wrappers", "mixed", "packed")]
+    cats += [("s2 " + n, ["s2", n]) for n in ("oneofs", "nested", "optionals", "wrappers", "mixed", "packed", "emptymsg")]
     for name, c in cats:
         u.append(("fresh[%s]" % name, h_fresh, {"cat": c}))
         for way in WAYS:
